@@ -35,6 +35,10 @@ func runC07(c *Ctx) {
 	c07NoGlobalWrites(c)
 	c07CacheKey(c)
 	c07ConfigImmutable(c)
+	// the caches only ever hold validated documents (C03/cache-after-validate); per-operation state of a websocket connection
+	// is not shared between operations (C11/per-operation-message)
+	c03Cache(c)
+	c11PerOperationMessage(c)
 }
 
 func isZeroValue(v ssa.Value) bool {
